@@ -405,7 +405,14 @@ impl Replay {
     fn step_send_not(&mut self, n: &str, key: &str) {
         self.log(json!({"ev":"SendNot","n":num(n),"key":key}));
         let text = format!("# v{}\n", n);
-        self.client.send_notif("textDocument/didChange", did_change_params(key, &text));
+        // full-text sync: a notification may carry several change events, each with the whole text; the last
+        // one is the text the editor has.  Every second notification is sent that way.
+        let params = if num(n).as_i64().unwrap_or(1) % 2 == 0 {
+            json!({"textDocument":{"uri":uri(key),"version":1},"contentChanges":[{"text":"# v9999\n"},{"text":text}]})
+        } else {
+            did_change_params(key, &text)
+        };
+        self.client.send_notif("textDocument/didChange", params);
         self.nots_sent += 1;
         self.unconfirmed.push_back(Queued::Not(self.nots_sent));
     }
@@ -440,8 +447,9 @@ impl Replay {
                 // (--dwell-ms) keep the workers where they are for a while: the notification has to survive
                 // however long the earlier requests take
                 let dwell = DWELL_MS.load(std::sync::atomic::Ordering::Relaxed);
-                let pending = { let s = self.rec.m.lock().unwrap(); outcomes(&s) < k };
-                if alive && pending && dwell > 0 {
+                // (also when the loop reports the notification as handled at once: a design that puts the edit
+                // aside instead of waiting must still end up with the last text)
+                if alive && dwell > 0 {
                     self.log(json!({"ev":"Dwell","ms":dwell}));
                     std::thread::sleep(Duration::from_millis(dwell));
                 }
